@@ -36,7 +36,10 @@ impl FeatureIter {
             let (vis, name) = params.get_vis_name("iter");
 
             let span = params.span();
-            let struct_name = params.get_str_opt("struct");
+            // documented as `struct_name`; `struct` is kept for backward compatibility
+            let struct_name = params
+                .get_str_opt("struct_name")
+                .or_else(|| params.get_str_opt("struct"));
             let mode = match params
                 .get_str_opt("mode")
                 .unwrap_or_else(|| "auto".to_string())
